@@ -106,11 +106,34 @@ def gen_visit(cls: str):
             c.requires(z3.Implies(S.declared(Sx, "pattern"), regex_gen_ok(M.sval(S.prop(Sx, "pattern")))),
                        "pattern-supported")
         c.raises(props=("C01",))
-        c.ensures("conforms", lambda r, post: S.conforms_def(ct, cls, Sx, r), ("C01",))
+        def goal(r, post):
+            g = S.conforms_def(ct, cls, Sx, r)
+            if cls == "ListSchema":
+                # proof hint: name the window term at offset 0 so that it can trigger the existential of
+                # the contains form (a definition of a fresh Boolean: logically neutral)
+                E = S.prop(Sx, "elements")
+                b = M.fresh("hint", M.B)
+                g = z3.Implies(b == S.window_ok(E, 1, M.llen(E) - 2, r, 0), g)
+            return g
+        c.ensures("conforms", goal, ("C01",))
         if cls == "FloatSchema":
             nonfin = lambda t: z3.And(t != M.NilV, z3.Not(M.is_FloatV(t)))
             c.known_region("C01-float-nonfinite-bound", "call:Random.random_float:requires",
                            z3.Or(nonfin(S.prop(Sx, "min")), nonfin(S.prop(Sx, "max"))))
+        if cls == "AnySchema":
+            t = S.prop(Sx, "types")
+            j = z3.Int("uj")
+            c.known_region("C01-any-unsat-alternative", "call:Accept[Generator]:requires[member-satisfiable]",
+                           z3.Exists([j], z3.And(0 <= j, j < M.llen(t), z3.Not(S.satisfiable(M.lat(t, j))))))
+        if cls == "ListSchema":
+            E = S.prop(Sx, "elements")
+            m = M.llen(E)
+            has_ell = z3.Or(z3.And(m > 0, M.lat(E, 0) == M.EllV), z3.And(m > 1, M.lat(E, m - 1) == M.EllV))
+            c.known_region("C01-list-unsat-type", "call:Accept[Generator]:requires[member-satisfiable]",
+                           z3.And(S.declared(Sx, "type"), z3.Not(S.satisfiable(S.prop(Sx, "type")))))
+            c.known_region("C01-list-ellipsis-len", "Generator.visit_list:ensures[conforms]",
+                           z3.And(S.declared(Sx, "elements"), has_ell,
+                                  z3.Or(S.declared(Sx, "len"), S.declared(Sx, "min_len"))))
         if cls == "StrSchema":
             c.known_region("C01-empty-alphabet", "call:Random.random_str:requires[alphabet-non-empty]",
                            z3.And(S.declared(Sx, "alphabet"), z3.Length(M.sval(S.prop(Sx, "alphabet"))) == 0))
@@ -136,3 +159,70 @@ def _regex_generate(c):
 
 
 transparent("d42/generation/_regex_generator.py", "RegexGenerator.__init__")
+
+
+# ----------------------------------------------------------------------------- containers
+@accept_contract("Generator", props=("C01", "C16", "C17"))
+def _accept_generator(c):
+    """Accept[Generator]: for a reachable, satisfiable member schema the generated value conforms."""
+    ct = c.ct
+    Mx = c.sym("schema")
+    c.requires(S.is_schema(ct, Mx), "member-is-schema")
+    c.requires(S.reach(Mx), "member-reachable")
+    c.requires(S.satisfiable(Mx), "member-satisfiable")
+    c.raises()
+    c.ensures("conforms", lambda r, post: z3.And(S.conforms(Mx, r), S.float_range(r)))
+
+
+for _m, _cls in [("visit_list", "ListSchema"), ("visit_dict", "DictSchema"), ("visit_any", "AnySchema"),
+                 ("visit_type_alias", "TypeAliasSchema")]:
+    contract(GEN, f"Generator.{_m}", props=("C01", "C17", "C07", "C16"), group="generator")(gen_visit(_cls))
+
+
+@invariant(GEN, "Generator.visit_list", loop=0)
+def _inv_gen_elements(L):
+    """L12: `elements` holds one generated value per concrete element schema seen so far, each conforming."""
+    ct = L.ct
+    out, Sx = L.v("elements"), L.v("schema")
+    E = S.prop(Sx, "elements")
+    m = M.llen(E)
+    ell0 = z3.And(m > 0, M.lat(E, 0) == M.EllV)
+    off = z3.If(ell0, 1, 0)
+    seen_ell0 = z3.If(z3.And(ell0, L.i > 0), 1, 0)
+    seen_ellL = z3.If(z3.And(m > 1, M.lat(E, m - 1) == M.EllV, L.i == m), 1, 0)
+    k = z3.Int("gk")
+    return z3.And(M.is_Ref(out), M.rcls(out) == ct.id("list"),
+                  M.llen(out) == L.i - seen_ell0 - seen_ellL,
+                  z3.ForAll([k], z3.Implies(z3.And(0 <= k, k < M.llen(out)),
+                                            z3.And(S.conforms(M.lat(E, k + off), M.lat(out, k)),
+                                                   S.float_range(M.lat(out, k)))),
+                            patterns=[M.lat(out, k)]))
+
+
+@invariant(GEN, "Generator.visit_dict", loop=0)
+def _inv_gen_dict(L):
+    """L13: `generated` has exactly the required non-ellipsis keys seen so far, each value conforming."""
+    ct = L.ct
+    g, Sx = L.v("generated"), L.v("schema")
+    K = S.prop(Sx, "keys")
+    x = z3.Const("gx", Obj)
+    j = z3.Int("gj")
+    req = lambda k: z3.And(k != M.EllV, M.lat(M.dget(K, k), 1) != M.mk_bool(True))
+    return z3.And(M.is_Ref(g), M.rcls(g) == ct.id("dict"),
+                  z3.ForAll([x], z3.Implies(M.has(g, x), z3.And(M.has(K, x), req(x), M.kidx(K, x) < L.i,
+                                                                S.conforms(M.lat(M.dget(K, x), 0), M.dget(g, x)))),
+                            patterns=[M.has(g, x)]),
+                  z3.ForAll([j], z3.Implies(z3.And(0 <= j, j < L.i, req(M.kat(K, j))), M.has(g, M.kat(K, j))),
+                            patterns=[M.kat(K, j)]))
+
+
+@contract(GINIT, "generate", props=("C01", "C17", "C07"), group="generator")
+def _generate(c):
+    ct = c.ct
+    Sx = c.sym("schema")
+    c.kwargs()
+    c.requires(S.is_schema(ct, Sx), "is-schema")
+    c.requires(S.reach(Sx), "reachable")
+    c.requires(S.satisfiable(Sx), "satisfiable")
+    c.raises(props=("C01",))
+    c.ensures("conforms", lambda r, post: S.conforms(Sx, r), ("C01",))
